@@ -66,6 +66,14 @@ def cases(tier, seed):
                 out.append({"kind": "traj", "cls": "rank_deficient" if 0 < r < min(m, n) else ("zero" if r == 0 else "full_rank"),
                             "m": m, "n": n, "r": r, "K": K, "idx": idx, "seed": seed})
                 idx += 1
+    # larger and extreme-aspect shapes with a shorter budget sweep
+    big = [(12, 7), (7, 12), (16, 3), (3, 16)] if tier == "quick" else [(12, 7), (7, 12), (10, 10), (16, 3), (3, 16), (20, 2), (2, 20), (14, 14), (18, 9), (9, 18), (24, 4)]
+    for (m, n) in big:
+        for r in sorted({min(m, n), min(m, n) - 1, 1}):
+            for k in range(1 if tier == "quick" else 2):
+                out.append({"kind": "traj", "cls": "rank_deficient" if 0 < r < min(m, n) else "full_rank", "m": m, "n": n, "r": r,
+                            "K": 8 if tier == "quick" else 14, "idx": idx, "seed": seed})
+                idx += 1
     for k in range(60 if tier == "quick" else 500):
         out.append({"kind": "stop", "cls": "stop", "idx": idx, "seed": seed, "maxd": maxd})
         idx += 1
